@@ -16,7 +16,7 @@ RULE = ("environments of 1-3 shapes of all kinds (simple bounded/unbounded, hole
 PROOF_STATUS = ("Props/C01.v: C01_expressions (all expressions from one-step soundness of | & ~), C01_never_hangs "
                 "(all inputs); C01_cellwise: the value of every expression is a union of cells of the arrangement of the "
                 "operands' boundaries (boundary inclusion + constancy along polylines avoiding them, exact joins decidable per "
-                "instance); C01_union_sound / C01_intersection_sound: one-step soundness of | and & for two simple ccw polygons "
+                "instance); C01_union_sound / C01_intersection_sound / C01_difference_sound: one-step soundness of | & - for two simple ccw polygons "
                 "in the recombination branch (ray-sum argument; hypotheses decidable per instance except simplicity of the "
                 "operands); open: holed / multi-component operands in that branch (C01_partial)")
 TRUSTED_EXTRA = ["oracle: exact slab sampling of the edge arrangement + crossing-number regions (harness/oracle.py), cross-checked against the extracted Spec on a sample"]
